@@ -134,3 +134,45 @@ package auth
 //@   loop 1 invariant {C14,C03} [bounds] -1 <= rangeindex && rangeindex < len(bp.Statement)
 //@   loop 1 invariant {C14,C03} [allowed-iff-allow-seen] isAllowed <==> (exists j int :: 0 <= j && j <= rangeindex && hit && bp.Statement[j].Effect == BucketPolicyAccessTypeAllow)
 //@   loop 1 invariant {C14,C03} [no-deny-seen] forall j int :: 0 <= j && j <= rangeindex ==> !(hit && bp.Statement[j].Effect == BucketPolicyAccessTypeDeny)
+
+// ---- C14: evaluation entry point and validation on put -----------------------------
+//@ func (BucketPolicy) isAllowed
+//@   pure
+//@ func VerifyBucketPolicy
+//@   at-call auth.BucketPolicy.isAllowed {C14,C03} [resource-is-bucket-or-bucket-slash-object] requires $1 == access && $2 == action && $3 == ite(object == "", bucket, bucket + "/" + object)
+//@   at-return {C14,C03} [nil-only-if-allowed] when err == nil :: ensures bucketPolicy.isAllowed(access, action, ite(object == "", bucket, bucket + "/" + object))
+
+// validation: deterministic functions of the document / statement and the account store
+//@ func ValidatePolicyDocument
+//@   pure
+//@   ensures {C14} [json-object] err == nil ==> len(policyBin) > 0 && old(policyBin[0]) == '{'
+//@   at-return {C14} [statements-present-and-valid] when err == nil :: ensures len(policy.Statement) > 0 && policy.Validate(bucket, iam) == nil
+//@ func (BucketPolicy) Validate
+//@   pure
+//@   ensures {C14} [every-statement-valid] err == nil ==> (forall j int :: 0 <= j && j < len(bp.Statement) ==> bp.Statement[j].Validate(bucket, iam) == nil)
+//@   loop 1 invariant {C14} [bounds] -1 <= rangeindex && rangeindex < len(bp.Statement)
+//@   loop 1 invariant {C14} [valid-so-far] forall j int :: 0 <= j && j <= rangeindex ==> bp.Statement[j].Validate(bucket, iam) == nil
+//@ func (BucketPolicyAccessType) Validate
+//@   pure
+//@   ensures {C14} [allow-or-deny] err == nil <==> (bpat == BucketPolicyAccessTypeAllow || bpat == BucketPolicyAccessTypeDeny)
+//@ func (Principals) Validate
+//@   pure
+//@ func (Resources) ContainsObjectPattern
+//@   pure
+//@ func (Resources) ContainsBucketPattern
+//@   pure
+//@ ghost func isObjAct(a Action) bool
+//@ func (Action) IsObjectAction
+//@   frame none
+//@ func (Resources) Validate
+//@   pure
+//@   ensures {C14} [inside-the-bucket] err == nil ==> (forall k string :: in(k, r) ==> k == bucket || strings.HasPrefix(k, bucket + "/"))
+//@   loop 1 invariant {C14} [visited-inside] forall k string :: visited(r, k) ==> k == bucket || strings.HasPrefix(k, bucket + "/")
+//@ func (BucketPolicyItem) Validate
+//@   pure
+//@   ensures {C14} [parts-valid] err == nil ==> bpi.Effect.Validate() == nil && bpi.Principals.Validate(iam) == nil && bpi.Resources.Validate(bucket) == nil
+//@   at-return {C14} [every-action-checked] when err == nil :: ensures forall k Action :: in(k, bpi.Actions) ==> visited(bpi.Actions, k)
+
+//@ func getMalformedPolicyError
+//@   frame none
+//@   ensures {C14} [is-an-error] ret0 != nil
